@@ -326,6 +326,27 @@ static J do_corrupt(const J& op) {
         // (Python gives an absolute offset computed modulo size; executor just writes 8 bytes)
         std::string v = fromhex(how["hex"].str()); if (d.size() >= 8 && v.size() == 8) { size_t o = offn(how["off"], 8); memcpy(&d[o], v.data(), 8); out.set("off", (long)o); }
     }
+    else if (k == "retype") {
+        // structure-aware: walk the object file (generation, then type|kind|value records) and replace kind+value of the i-th attribute by the given kind and
+        // the given well-formed value encoding, so that the file still parses and the stored KIND disagrees with what the attribute TYPE is defined to hold
+        auto be = [&](size_t o) -> uint64_t { uint64_t v = 0; for (int i = 0; i < 8; i++) v = (v << 8) | (unsigned char)d[o + i]; return v; };
+        std::vector<std::pair<size_t, size_t>> recs; size_t pos = 8; bool okw = d.size() >= 8;
+        while (okw && pos + 16 <= d.size()) {
+            uint64_t kind = be(pos + 8); size_t v = pos + 16, len = 0;
+            if (kind == 1) len = 1; else if (kind == 2) len = 8;
+            else if (kind == 3 || kind == 4) { if (v + 8 > d.size()) { okw = false; break; } uint64_t n = be(v); if (n > d.size()) { okw = false; break; } len = 8 + (size_t)n; }
+            else if (kind == 5) { if (v + 8 > d.size()) { okw = false; break; } uint64_t n = be(v); if (n > d.size() / 8) { okw = false; break; } len = 8 + 8 * (size_t)n; }
+            else { okw = false; break; }
+            if (v + len > d.size()) { okw = false; break; }
+            recs.push_back({pos + 8, v + len}); pos = v + len;
+        }
+        if (recs.empty()) { out.set("skipped", "retype-unparsed"); return out; }
+        size_t i = (size_t)how["index"].num() % recs.size();
+        std::string rep(8, '\0'); uint64_t nk = (uint64_t)how["kind"].num(); for (int b = 0; b < 8; b++) rep[7 - b] = (char)((nk >> (8 * b)) & 0xff);
+        rep += fromhex(how["enc"].str());
+        out.set("attr", (long)be(recs[i].first - 8)); out.set("oldkind", (long)be(recs[i].first)); out.set("nattrs", (long)recs.size());
+        d = d.substr(0, recs[i].first) + rep + d.substr(recs[i].second);
+    }
     f->data = std::make_shared<std::string>(d);
     out.set("done", true);
     return out;
